@@ -107,7 +107,11 @@ func (r *InMemoryRepository) UpdateById(
 	if task.Task.State != def.TaskScheduled {
 		return def.ErrKindUpdate(*task.Task)
 	}
-	*(task.Task) = task.Task.Update(param)
+	updated := task.Task.Update(param)
+	if !updated.IsValid() {
+		return fmt.Errorf("%w. reason = %v", def.ErrInvalidTask, updated.ReportInvalidity())
+	}
+	*(task.Task) = updated
 	r.heap.Fix(task.Index)
 	return nil
 }
